@@ -40,7 +40,8 @@ def classify(s, dc):
 
 
 def _shard(args):
-    first_chars, alphabet_name, maxlen, dc = args
+    first_chars, alphabet_name, maxlen, dc = args[:4]
+    history = len(args) > 4 and args[4]
     alphabet = {"esc": ESC, "ascii": ASCII}.get(alphabet_name)
     if alphabet is None:
         import vyxal.encoding
@@ -58,6 +59,9 @@ def _shard(args):
                 n += 1
                 part.outcome(classify(s, dc))
                 try:
+                    if history:
+                        # history of two evaluations in one process: the same literal first with the OTHER compression setting
+                        roundtrip(s, not dc, ns, ctx)
                     text, stack = roundtrip(s, dc, ns, ctx)
                     ok = len(stack) == 1 and stack[0] == s and type(stack[0]) is str
                     obs = stack
@@ -68,11 +72,11 @@ def _shard(args):
                 if not ok:
                     part.violation("string", {"string": s, "dict_compress": dc, "alphabet": alphabet_name, "quoted": text},
                                    "quote/evaluate round trip differs (dict_compress=%s)" % dc,
-                                   {"class": classify(s, dc), "dict_compress": dc}, [s],
+                                   {"class": classify(s, dc), "dict_compress": dc, "after_other_setting": bool(history)}, [s],
                                    obs if isinstance(obs, str) else [repr(x) for x in obs], size=len(s))
     part.count(n)
     part.d["nontrivial_n"] += n
-    part.section("%s_len<=%d_dc=%s" % (alphabet_name, maxlen, dc), strings=n)
+    part.section("%s_len<=%d_dc=%s%s" % (alphabet_name, maxlen, dc, "_after_other_setting" if history else ""), strings=n)
     return part.data()
 
 
@@ -93,6 +97,11 @@ def run(tier, seed):
     shards += [([c], "codepage", L, False) for c in cp]
     # (iii) printable ASCII, compression on
     shards += [([c], "ascii", 3, True) for c in ASCII]
+    # two-step histories: the same literal evaluated with the other compression setting first (a cache keyed on the text alone
+    # would survive every single-shot case)
+    shards += [([c], "codepage", 2, False, True) for c in cp]
+    shards += [([c], "ascii", 2, True, True) for c in ASCII]
+    shards += [([c], "esc", 3, False, True) for c in ESC]
     shards.append(([""], "esc", 1, False))
     shards.append(([""], "esc", 1, True))
     explore.pmap(_shard, shards, rep, seed)
@@ -108,7 +117,7 @@ def run(tier, seed):
     rep.extra["allow_skips"] = True
     rep.rule = ("all strings of length <=3 over the escape-relevant set %r (compression off; ASCII ones also on); all "
                 "strings of length <=%d over the 256-character code page, compression off; all printable-ASCII strings "
-                "of length <=%d, compression on. Every string is distinct and counts as non-trivial." % (
+                "of length <=%d, compression on; plus two-step histories (the same literal first evaluated with the other compression setting in the same process) for all strings <=2 over the code page / ASCII and <=3 over the escape set. Every string is distinct and counts as non-trivial." % (
                     "".join(ESC), L, 3))
     import random
 
